@@ -50,6 +50,7 @@ type Engine struct {
 	solverKind, logic                                           string
 	forbidEvents                                                []string
 	guards                                                      []guard
+	crossEvery                                                  int
 	queryTimeoutMs                                              int
 	params                                                      map[string]int
 	collisionFree                                               map[string]bool // UF names with injectivity axiom
@@ -187,6 +188,7 @@ func (e *Engine) newInterp() (*Interp, error) {
 	if err != nil {
 		return nil, err
 	}
+	sol.cross = e.crossEvery
 	in := &Interp{eng: e, prog: e.prog, ctx: ctx, sol: sol, sizes: &types.StdSizes{WordSize: 8, MaxAlign: 8},
 		fnInfos: map[*ssa.Function]*fnInfo{}, constCache: map[*ssa.Const]value{}, intrCache: map[*ssa.Function]intrinsicFn{}}
 	return in, nil
@@ -361,25 +363,27 @@ type PathResult struct {
 }
 
 type HarnessResult struct {
-	Name         string
-	Paths        int
-	PathEnds     map[string]int
-	Decisions    int64
-	Obligations  int64
-	Violations   []Violation
-	Covers       map[string]int
-	Events       map[string]int
-	EngineErrors []string
-	Unknowns     []string
-	Unwinds      []string
-	Steps        int64
-	Funcs        map[string]int
-	Inputs       map[string]bool
-	Wall         time.Duration
-	SolverTime   time.Duration
-	Queries      int
-	SamplePaths  []string
-	Truncated    bool
+	Name                                 string
+	Paths                                int
+	PathEnds                             map[string]int
+	Decisions                            int64
+	Obligations                          int64
+	Violations                           []Violation
+	Covers                               map[string]int
+	Events                               map[string]int
+	EngineErrors                         []string
+	Unknowns                             []string
+	Unwinds                              []string
+	Steps                                int64
+	Funcs                                map[string]int
+	Inputs                               map[string]bool
+	Wall                                 time.Duration
+	SolverTime                           time.Duration
+	Queries                              int
+	Cross, CrossAgree, CrossInconclusive int
+	CrossDisagree                        []string
+	SamplePaths                          []string
+	Truncated                            bool
 }
 
 // RunHarness explores all paths of fn with nworkers workers.
@@ -409,6 +413,10 @@ func (e *Engine) RunHarness(fn *ssa.Function, nworkers int, maxPaths int, deadli
 				mu.Lock()
 				res.SolverTime += in.sol.solveTime
 				res.Queries += in.sol.nCheck
+				res.Cross += in.sol.nCross
+				res.CrossAgree += in.sol.nCrossAgree
+				res.CrossInconclusive += in.sol.nCrossInconclusive
+				res.CrossDisagree = append(res.CrossDisagree, in.sol.crossDisagree...)
 				mu.Unlock()
 				in.sol.Close()
 			}()
